@@ -35,6 +35,11 @@ def cases(ctx):
         kw = {}
         if rng.random() < 0.4:
             kw["thresholds"] = rng.normal(0, 2, int(rng.integers(1, 5)))
+            u_ = rng.random()
+            if u_ < 0.2:  # infinite thresholds are legal operating points (accept / reject everything)
+                kw["thresholds"] = np.concatenate([kw["thresholds"], rng.choice([np.inf, -np.inf], int(rng.integers(1, 3)))])[rng.permutation(len(kw["thresholds"]) + 1)[: len(kw["thresholds"]) + 1]]
+            elif u_ < 0.27:
+                kw["thresholds"] = np.array([float(rng.choice([np.inf, -np.inf]))])
         if rng.random() < 0.4:
             kw["fnr"] = rng.uniform(0, 1, int(rng.integers(1, 5)))
         if rng.random() < 0.4:
